@@ -22,6 +22,8 @@ def build(ctx, F, rule):
 
 def run(ctx):
     _run(ctx)
+    ctx.delegate("C02", ["C02.reclen"], "C09.counters",
+                 "finalize leaves the writer's running length and record counter alone (it writes them, it does not recompute them)", floor=3)
     ctx.delegate("C05", ["C05.header", "C05.ranges"], "C09.bbox",
                  "the header box does not depend on when finalize ran: sentinels are reset by the first write, every shape's ranges "
                  "are real values, finalize only zeroes dimensions that were never grown", floor=20)
